@@ -13,6 +13,13 @@ try:
     resource.setrlimit(resource.RLIMIT_AS, (3 << 30, 3 << 30))
 except Exception:
     pass
+_cov = None
+if os.environ.get("GV_COVERAGE_DIR"):
+    # diagnostic only (not used by any registered command): which lines of the tool do the checks' inputs reach
+    import coverage
+    _cov = coverage.Coverage(data_file=os.path.join(os.environ["GV_COVERAGE_DIR"], "cov"), data_suffix=True, branch=True,
+                             include=[os.environ.get("GASOL_REPO", "/repo") + "/*"])
+    _cov.start()
 import tasks
 
 
@@ -33,6 +40,9 @@ def main():
         _out.write(json.dumps(r) + "\n")
         _out.flush()
     tasks.cleanup()
+    if _cov is not None:
+        _cov.stop()
+        _cov.save()
 
 
 main()
